@@ -1,6 +1,154 @@
+(* C07/Props.v : the statements proved for property C07 (fusion and light cone preserve meaning).
+   Every theorem is about the executable model of C07/Model.v, for ALL circuits over the abstract
+   alphabet (identity, qubits, kind), all numbers of qubits and all fusion widths.
+   [gteqn n] is trace equivalence where gates with disjoint supports commute and a special gate
+   (callback) has all n qubits as support; [gteq] uses the plain qubit lists.            *)
 From Coq Require Import List Bool Arith Lia.
-From QV Require Import Base.Trace C07.Model C07.Proofs.
+From QV Require Import Base.Trace C07.Model C07.Proofs C07.ProofsFuse.
 Import ListNotations.
+
+(* ---- Base/Trace ---- *)
 Theorem trace_checker_sound n c1 c2 : gtrace_equivn_b n c1 c2 = true -> gteqn n c1 c2.
 Proof. exact (gtrace_equivn_b_sound n c1 c2). Qed.
 Print Assumptions trace_checker_sound.
+
+(* equivalent words have equal products in EVERY monoid interpretation in which independent
+   letters commute (unitaries, channels, measurements, callbacks as opaque letters) *)
+Theorem trace_sem_respects :
+  forall (A : Type) (indep : A -> A -> bool) (M : Type) (op : M -> M -> M) (e : M),
+    (forall x y z, op x (op y z) = op (op x y) z) ->
+    forall f : A -> M,
+    (forall a b, indep a b = true -> op (f a) (f b) = op (f b) (f a)) ->
+    forall l1 l2, teq indep l1 l2 -> tprod op e f l1 = tprod op e f l2.
+Proof. intros A indep M op e Ha f Hc l1 l2. exact (sem_respects indep op e Ha f Hc l1 l2). Qed.
+Print Assumptions trace_sem_respects.
+
+(* ---- fusion ---- *)
+Theorem fuse_equiv : forall (n : nat) (c : list gate) (max_qubits : nat),
+  gteqn n (flatten (fuse_model n c max_qubits)) c.
+Proof. exact fuse_equiv_proof. Qed.
+Print Assumptions fuse_equiv.
+
+(* hence the fused circuit maps every initial state to the same final state, for every
+   interpretation of the gates as state transformers in which disjoint gates commute *)
+Theorem fuse_same_final_state :
+  forall (St : Type) (act : gate -> St -> St) (n : nat),
+    (forall a b s, gindepn n a b = true -> act a (act b s) = act b (act a s)) ->
+    forall c max_qubits s, trun act (flatten (fuse_model n c max_qubits)) s = trun act c s.
+Proof.
+  intros St act n Hc c k s.
+  exact (run_respects (gindepn n) (sindep_sym (gsupp n)) act Hc _ _ (fuse_equiv n c k) s).
+Qed.
+Print Assumptions fuse_same_final_state.
+
+Example fuse_example :
+  map item_sig (fuse_model 3 [mkGate 0 [0] KOrd; mkGate 1 [0;1] KOrd; mkGate 2 [1;2] KOrd;
+                               mkGate 3 [1] KMeas; mkGate 4 [0;1] KOrd; mkGate 5 [2] KOrd] 2)
+  = [(true, [0;1], [0;1]); (true, [1;2], [2;5]); (false, [], [3]); (false, [], [4])].
+Proof. vm_compute. reflexivity. Qed.
+
+(* measurements and special gates are never absorbed, never reordered among themselves, and
+   the members of a fused group are ordinary gates *)
+Theorem fuse_keeps_measurements : forall (n : nat) (c : list gate) (max_qubits : nat),
+  filter nonord (flatten (fuse_model n c max_qubits)) = filter nonord c
+  /\ (forall g, In g c -> is_ord g = false -> In (ISingle g) (fuse_model n c max_qubits))
+  /\ (forall qs gs g, In (IGroup qs gs) (fuse_model n c max_qubits) -> In g gs -> is_ord g = true).
+Proof.
+  intros n c k. split; [apply fuse_nonord_proof|]. split.
+  - intros g. apply fuse_single_proof.
+  - intros qs gs g H Hg. destruct (fuse_groups_proof n c k qs gs H) as [Hall _]. apply Hall; auto.
+Qed.
+Print Assumptions fuse_keeps_measurements.
+
+(* every fused group acts on at most max_qubits (distinct) qubits, contains its members' qubits,
+   and has at least two members *)
+Theorem fuse_width : forall (n : nat) (c : list gate) (max_qubits : nat) qs gs,
+  In (IGroup qs gs) (fuse_model n c max_qubits) ->
+  length qs <= max_qubits /\ NoDup qs /\ 2 <= length gs /\ (forall g, In g gs -> incl (gqs g) qs).
+Proof.
+  intros n c k qs gs H. destruct (fuse_groups_proof n c k qs gs H) as [Hall [Hk [Hnd Hl]]].
+  repeat split; auto. intros g Hg. apply Hall; auto.
+Qed.
+Print Assumptions fuse_width.
+
+(* Refuted for circuits that already contain a FusedGate (outside the alphabet of fuse_equiv):
+   the node built for it is dropped by from_fused whenever its first member is ordinary. *)
+Theorem fuse_fused_input_refuted :
+  exists (n : nat) (members : list gate),
+    members <> [] /\ (forall g, In g members -> is_ord g = true)
+    /\ from_fused [node_of_fused_input n members] = [].
+Proof.
+  exists 2, [mkGate 0 [0] KOrd; mkGate 1 [0;1] KOrd]. split; [discriminate|]. split.
+  - intros g [<-|[<-|[]]]; reflexivity.
+  - reflexivity.
+Qed.
+Print Assumptions fuse_fused_input_refuted.
+
+(* ---- light cone ---- *)
+(* kept = the gates of the light-cone circuit (before re-indexing), cone = the final qubit set *)
+Theorem light_cone_ok : forall (c : list gate) (S : list nat),
+  let cone := fst (lc_sweep c S) in
+  let kept := snd (lc_sweep c S) in
+  let dropped := lc_dropped c S in
+  gteq c (kept ++ dropped)
+  /\ (forall g, In g dropped -> disjointb (gqs g) S = true)
+  /\ (forall g, In g kept -> incl (gqs g) cone)
+  /\ incl S cone.
+Proof.
+  intros c S. repeat split.
+  - apply lc_equiv.
+  - apply lc_dropped_off_S.
+  - apply lc_kept_in_cone.
+  - apply lc_cone_S.
+Qed.
+Print Assumptions light_cone_ok.
+
+Example light_cone_example :
+  light_cone_model [mkGate 0 [0;1] KOrd; mkGate 1 [2] KOrd; mkGate 2 [3;1] KOrd; mkGate 3 [3] KOrd] [1]
+  = (3, [0;1;3], [(0, Some [0;1]); (2, Some [2;1])]).
+Proof. vm_compute. reflexivity. Qed.
+
+(* the re-indexing map q |-> position of q in sorted(cone) is defined on the cone, lands in
+   [0, |cone|), is strictly increasing (hence injective), and maps every kept gate *)
+Theorem light_cone_reindex : forall (c : list gate) (S : list nat),
+  let cone := fst (lc_sweep c S) in
+  (forall q, In q cone -> exists i, lc_map cone q = Some i /\ i < length cone /\ nth i cone 0 = q)
+  /\ (forall q1 q2 i1 i2, lc_map cone q1 = Some i1 -> lc_map cone q2 = Some i2 -> q1 < q2 -> i1 < i2)
+  /\ (forall q1 q2 i, lc_map cone q1 = Some i -> lc_map cone q2 = Some i -> q1 = q2)
+  /\ (forall g, In g (snd (lc_sweep c S)) ->
+        exists r, map_qubits cone (gqs g) = Some r /\ length r = length (gqs g)).
+Proof.
+  intros c S. repeat split.
+  - intros q Hq. destruct (index_of_In q _ Hq) as [i Hi]. exists i. split; auto.
+    apply index_of_Some; auto.
+  - apply index_of_mono. apply (lc_cone_sorted c S).
+  - intros q1 q2 i H1 H2. apply index_of_Some in H1, H2. destruct H1, H2. congruence.
+  - intros g Hg. apply map_qubits_Some. apply (lc_kept_in_cone c S g Hg).
+Qed.
+Print Assumptions light_cone_reindex.
+
+(* consequence for the reduced state: for every interpretation of gates as state transformers
+   in which disjoint gates commute, and every observation [obs] (= reduced state on S) that is
+   not changed by a gate acting outside S, the full circuit and the kept gates give the same
+   observation.  The premise [obs_outside] is the partial-trace identity
+   Tr_{S^c}[(1 (x) D) rho (1 (x) D)^+] = Tr_{S^c} rho ; it is NOT proved here (it is a fact about
+   matrices, and holds only for trace-preserving operations D). *)
+Theorem light_cone_reduced_state :
+  forall (St Obs : Type) (act : gate -> St -> St) (obs : St -> Obs) (S : list nat),
+    (forall a b s, gindep a b = true -> act a (act b s) = act b (act a s)) ->
+    (forall g s, disjointb (gqs g) S = true -> obs (act g s) = obs s) ->
+    forall c s, obs (trun act c s) = obs (trun act (snd (lc_sweep c S)) s).
+Proof. intros St Obs act obs S H1 H2 c s. exact (light_cone_obs act obs S H1 H2 c s). Qed.
+Print Assumptions light_cone_reduced_state.
+
+(* meaning of the per-instance certificate evaluated by the harness on implementation outputs *)
+Theorem light_cone_certificate_sound : forall c S cone kept_ids,
+  lc_cert_b c S cone kept_ids = true ->
+  let kept := map (gate_of c) kept_ids in
+  let dropped := filter (fun g => negb (memb (gid g) kept_ids)) c in
+  gteq c (kept ++ dropped)
+  /\ (forall g, In g dropped -> disjointb (gqs g) S = true)
+  /\ (forall g, In g kept -> incl (gqs g) cone)
+  /\ incl S cone.
+Proof. exact lc_cert_sound. Qed.
+Print Assumptions light_cone_certificate_sound.
